@@ -178,19 +178,20 @@ func propQuota(c QuotaCase) (o pbt.Outcome) {
 			// relayed to the client and the refusal carries the quota status)
 			// the refusal carries the quota status (close request with status 1)
 			sawQuotaStatus := false
-			if c.UDP {
-				dg, _ := pn.Snapshot()
-				for _, d := range e2e.DecodeDatagrams(dg, 7000, users, tStart, time.Now()) {
-					if d.Seg != nil && !d.FromClient && d.Seg.Meta.Proto == refproto.CloseSessionRequest && d.Seg.Meta.Status == 1 {
-						sawQuotaStatus = true
-					}
-				}
-			} else {
-				time.Sleep(20 * time.Millisecond)
-				for _, l := range e2e.DecodeLinks(sn, users, tStart, time.Now()) {
-					for _, seg := range l.S2C {
-						if seg.Meta.Proto == refproto.CloseSessionRequest && seg.Meta.Status == 1 {
+			for end := time.Now().Add(3 * time.Second); !sawQuotaStatus && time.Now().Before(end); time.Sleep(10 * time.Millisecond) {
+				if c.UDP {
+					dg, _ := pn.Snapshot()
+					for _, d := range e2e.DecodeDatagrams(dg, 7000, users, tStart, time.Now()) {
+						if d.Seg != nil && !d.FromClient && d.Seg.Meta.Proto == refproto.CloseSessionRequest && d.Seg.Meta.Status == 1 {
 							sawQuotaStatus = true
+						}
+					}
+				} else {
+					for _, l := range e2e.DecodeLinks(sn, users, tStart, time.Now()) {
+						for _, seg := range l.S2C {
+							if seg.Meta.Proto == refproto.CloseSessionRequest && seg.Meta.Status == 1 {
+								sawQuotaStatus = true
+							}
 						}
 					}
 				}
@@ -200,7 +201,10 @@ func propQuota(c QuotaCase) (o pbt.Outcome) {
 				o.Failf("quota-status", "user %d over quota was refused without the quota status on the wire", i)
 				return
 			}
-			if downC.Load() != down0 || upC.Load()-up0 > int64(e2e.Socks5RequestLen(0)) {
+			// (the application may read the SOCKS5 request of the refused session,
+			// and of a re-created one when the client's open request is
+			// retransmitted on UDP; that is not relaying)
+			if downC.Load() != down0 || upC.Load()-up0 > 4*int64(e2e.Socks5RequestLen(0)) {
 				o.Failf("quota-relayed", "user %d over quota: %d upload / %d download bytes were relayed on a refused session", i, upC.Load()-up0, downC.Load()-down0)
 				return
 			}
